@@ -58,6 +58,27 @@ func gfives(x *int) gomini.Goal {
 	return gomini.DisjO(gomini.EqualO(x, &five), func(ctx context.Context, s *gomini.State, ss gomini.Stream) { gfives(x)(ctx, s, ss) })
 }
 
+// gwide: an infinite relation written with an n-ary DisjO (eta-expanded recursion, a short pause per expansion so that an
+// eager left recursion stays within memory until it is cancelled)
+func gwide(x *int, variant int) gomini.Goal {
+	one, two := 1, 2
+	rec := func(ctx context.Context, s *gomini.State, ss gomini.Stream) {
+		select {
+		case <-ctx.Done():
+			return
+		case <-time.After(200 * time.Microsecond):
+		}
+		gwide(x, variant)(ctx, s, ss)
+	}
+	switch variant {
+	case 1:
+		return gomini.DisjO(rec, gomini.EqualO(x, &one), gomini.EqualO(x, &two))
+	case 2:
+		return gomini.DisjO(gomini.EqualO(x, &one), rec, gomini.EqualO(x, &two), gomini.EqualO(x, &one))
+	}
+	return gomini.DisjO(rec)
+}
+
 // burstProgram: a finite disjunction of n branches, branch i answers q = "bi"; after answering, every branch waits until all
 // its siblings have answered and then all return at the same reading of the clock - so n finishing goroutines hand back
 // their permits at (almost) the same instant. A legal goal program: it only adds waiting.
@@ -234,7 +255,11 @@ func observeLeak(c leakCase) *leakObs {
 				rctx = gomini.SetMaxRoutines(ctx, c.Max)
 			}
 			var ch chan any
-			if c.Kind == "gomini-infinite" {
+			if c.Kind == "gomini-infinite" && c.Variant > 0 {
+				// an n-ary disjunction whose recursive clause is the FIRST (variant 1), a MIDDLE (2) or the ONLY one (3): every
+				// clause of a disjunction is search work like any other - after cancel none of them is expanded any further
+				ch = gomini.Run(rctx, gomini.NewState(), func(q *int) gomini.Goal { return gwide(q, c.Variant) })
+			} else if c.Kind == "gomini-infinite" {
 				ch = gomini.Run(rctx, gomini.NewState(), func(q *int) gomini.Goal { return gfives(q) })
 			} else if c.Kind == "gomini-elserec" {
 				// a relation that recurses through the ELSE branch (eta-expanded, as recursive Go relations are):
@@ -325,6 +350,8 @@ func genLeakCases(cfg *Config, prop string) []leakCase {
 				cases = append(cases, leakCase{Kind: "gomini-infinite", Take: take, Max: max, Calls: 1})
 			}
 		}
+		cases = append(cases, leakCase{Kind: "gomini-infinite", Take: 4, Max: 0, Calls: 1, Variant: 1}, leakCase{Kind: "gomini-infinite", Take: 2, Max: 3, Calls: 1, Variant: 1},
+			leakCase{Kind: "gomini-infinite", Take: 3, Max: 0, Calls: 1, Variant: 2}, leakCase{Kind: "gomini-infinite", Take: 0, Max: 0, Calls: 1, Variant: 3})
 		cases = append(cases, leakCase{Kind: "gomini-ifte", Take: 1, Max: 2, Calls: 6, Variant: 0}, leakCase{Kind: "gomini-ifte", Take: 2, Max: 0, Calls: 4, Variant: 1},
 			leakCase{Kind: "gomini-ifte", Take: 0, Max: 3, Calls: 4, Variant: 1},
 			leakCase{Kind: "gomini-elserec", Take: 0, Max: 0, Calls: 3}, leakCase{Kind: "gomini-elserec", Take: 0, Max: 3, Calls: 2},
@@ -354,7 +381,7 @@ func genLeakCases(cfg *Config, prop string) []leakCase {
 			case 1:
 				cases = append(cases, leakCase{Kind: "gomini-finite", N: 2 + r.Intn(8), Take: r.Intn(5) - 1, Max: pick(r, []int{0, 0, 2, 5}), Calls: 1 + r.Intn(5)})
 			case 2:
-				cases = append(cases, leakCase{Kind: "gomini-infinite", Take: r.Intn(6), Max: pick(r, []int{0, 0, 3, 8}), Calls: 1})
+				cases = append(cases, leakCase{Kind: "gomini-infinite", Take: r.Intn(6), Max: pick(r, []int{0, 0, 3, 8}), Calls: 1, Variant: r.Intn(4)})
 			case 3:
 				cases = append(cases, leakCase{Kind: "gomini-ifte", Take: r.Intn(4), Max: pick(r, []int{0, 2, 3}), Calls: 2 + r.Intn(5), Variant: r.Intn(2)})
 			default:
